@@ -261,11 +261,13 @@ class Reg(dict):
         return None
 
 
+class RCfg(dict):
+    pass
+
+
 class Sess(object):
     reg_addr = 'tcp://reg:0'
-    class rcfg(object):
-        @staticmethod
-        def get(k, d=None): return d
+    def __init__(self): self.rcfg = RCfg()
 
 
 def mk_exec_component():
@@ -375,7 +377,7 @@ ASSEMBLY_OK = _validate_assembly()
 
 @obligation(params={'ranks': (1, 3), 'rank': (0, 2), 'pp': (0, 11),
                     'fail': (0, 4), 'code': (0, 255),
-                    'gpu': (0, 2), 'misc': (0, 3)},
+                    'gpu': (0, 2), 'misc': (0, 6)},
             partition={'quick': ('pp', 12), 'thorough': ('pp', 12)},
             shapes={'quick': [{'small': True}], 'thorough': [{'small': False}]},
             timeout={'quick': 300, 'thorough': 1800},
@@ -390,7 +392,9 @@ ASSEMBLY_OK = _validate_assembly()
                    'per-rank; failing atom: none / pre global / pre rank 0 / '
                    'pre rank 1 / post; executable exit code symbolic 0..255; '
                    'GPUs per rank 0..2 with CUDA (quick 0..1); one of: OpenMP '
-                   'threading / task environment / task name / none',
+                   'threading / task environment / task name / named env + '
+                   'environment / site task_pre_exec / site task_pre_exec '
+                   'after another task used the same component / none',
             stubs=['file writes -> none (text assembled as '
                    '_create_exec_script does; assembly validated against the '
                    'real method on import)', 'registry -> constants'])
@@ -398,13 +402,27 @@ def h_exec_script(ranks, rank, pp, fail, code, gpu, misc, small=False):
     """the exec script runs pre_exec, executable, post_exec as described"""
     if rank >= ranks: return
     if small and gpu == 2: return
-    pp, misc = conc(pp, 0, 11), conc(misc, 0, 3)
+    pp, misc = conc(pp, 0, 11), conc(misc, 0, 6)
     pre, post = pp // 3, pp % 3
-    omp, env, name = misc == 1, misc == 2, misc == 3
+    omp, env, name = misc == 1, misc in (2, 4), misc == 3
+    nenv, site, prev = misc == 4, misc in (5, 6), misc == 6
     ranks, rank = conc(ranks, 1, 3), conc(rank, 0, 2)
     fail, gpu = conc(fail, 0, 4), conc(gpu, 0, 2)
     c  = mk_exec_component()
     lm = mk_fork() if ranks == 1 else mk_mpirun()
+    lm.get_task_named_env = lambda n: '/pilot/env/rp_named_env.%s.sh' % n
+    if site:
+        c._session.rcfg['task_pre_exec'] = ['ATOM_site']
+    if prev:
+        # another task went through the same component before
+        ptd = {'ranks': 1, 'cores_per_rank': 1, 'gpus_per_rank': 0.0,
+               'threading_type': '', 'gpu_type': '', 'pre_exec': ['ATOM_prev'],
+               'post_exec': [], 'pre_exec_sync': False, 'named_env': '',
+               'environment': {}, 'executable': '/bin/other', 'arguments': [],
+               'startup_timeout': 0}
+        real(build_exec_text, c, mk_fork(),
+             {'uid': 'task.0006', 'task_sandbox_path': '/pilot/task.0006',
+              'slots': [], 'description': ptd})
     pre_exec  = [[], ['ATOM_g'], ['ATOM_g', {'0': 'ATOM_r0', '1': 'ATOM_r1'}],
                  [{'0': ['ATOM_r0', 'ATOM_r0b'], '1': 'ATOM_r1'}]][pre]
     post_exec = [[], ['ATOM_p'], [{'0': 'ATOM_p0', '2': 'ATOM_p2'}]][post]
@@ -419,7 +437,8 @@ def h_exec_script(ranks, rank, pp, fail, code, gpu, misc, small=False):
           'gpu_type': rpc.CUDA if gpu else '',
           'pre_exec': [dict(x) if isinstance(x, dict) else x for x in pre_exec],
           'post_exec': list(post_exec), 'pre_exec_sync': False,
-          'named_env': '', 'environment': {'MY_VAR': 'my value'} if env else {},
+          'named_env': 'env0' if nenv else '',
+          'environment': {'MY_VAR': 'my value'} if env else {},
           'executable': '/bin/prog', 'arguments': ['arg1'],
           'startup_timeout': 0}
     task = {'uid': 'task.0007', 'task_sandbox_path': '/pilot/task.0007',
@@ -465,7 +484,7 @@ def h_exec_script(ranks, rank, pp, fail, code, gpu, misc, small=False):
             else:
                 out.append(e)
         return out
-    exp_pre  = mine(pre_exec)
+    exp_pre  = mine(pre_exec) + (['ATOM_site'] if site else [])
     exp_post = mine(post_exec)
     exe_pos  = [i for i, x in enumerate(ran) if x.startswith('EXE ')]
     atoms    = [x for x in ran if x.startswith('ATOM_')]
